@@ -59,8 +59,8 @@ func c16RunCase(gojq, base string, c map[string]any, timeout time.Duration) vlib
 	cmd.Dir = dir
 	cmd.Env = []string{"HOME=" + dir, "NO_COLOR=1", "PATH=/usr/bin:/bin"}
 	cmd.Stdin = bytes.NewReader(c16Bytes(c["stdin"]))
-	var stdout, stderr bytes.Buffer
-	cmd.Stdout, cmd.Stderr = &stdout, &stderr
+	stdout, stderr := &capBuffer{max: 32 << 20}, &capBuffer{max: 4 << 20}
+	cmd.Stdout, cmd.Stderr = stdout, stderr
 	err = cmd.Run()
 	exit := 0
 	if err != nil {
